@@ -381,7 +381,16 @@ def classify_hang(exe, d, case):
             return [("withheld", "cpu_span", "image spans more than 64 KiB")]
     if m and max(lo, hi) >= 0xffff0000:
         cpu = "high-address"
-    return [("viol", "hang/cmd/%s/%s" % (case["ccls"], cpu), "no termination within %d CPU-s although the image and every requested range span <= 64 KiB" % CPU_S)]
+    # a command range ending in the last 64 KiB of the 32-bit space: the per-cpu range loops use 32-bit counters
+    # that wrap (DESIGN.md section 5) - one finding class, whatever the cpu
+    for tok in re.findall(r"0x[0-9a-fA-F]+", (case.get("stdin") or "") + " " + " ".join(case.get("args") or [])):
+        try:
+            if int(tok, 16) >= 0xffff0000:
+                cpu = "high-address"
+        except ValueError:
+            pass
+    # keyed by cpu only: command hangs come from the cpu's decoder/range loop, whatever command class reached it
+    return [("viol", "hang/cmd/%s" % cpu, "no termination within %d CPU-s although the image and every requested range span <= 64 KiB" % CPU_S)]
 
 
 # ------------------------------------------------------------------ generation
